@@ -1,13 +1,26 @@
 (* C01 Exactly-once delivery of every accepted value to every stream.
-   Proved here, for every reachable state with fewer than 2^62 handles ever created, all configurations,
-   populations and schedules: the head counter equals the number of claimed values (mod 2^63), every step either
-   leaves the claim log alone or appends exactly the value of the claiming send to it (so a claimed position is
-   claimed once, by one send, and refused sends claim nothing), including the single-writer path that stores the
-   counter without a compare-exchange.  Not proved: that what a stream delivers is the log segment from its start
-   position (needs the slot/tag/cursor invariant, see MANIFEST level_note). *)
+   Proved here, for all configurations, populations of handles and schedules (interleavings of micro-steps,
+   states in the middle of calls included):
+   - the head counter equals the number of claimed values (mod 2^63); every step either leaves the claim log
+     alone or appends exactly the value of the claiming send (a claimed position is claimed once, by one send;
+     refused sends claim nothing), including the single-writer path that stores the counter without a
+     compare-exchange;
+   - C01_stream_delivers_consecutive_positions: for every stream, the positions it has delivered, in the order
+     of delivery, are consecutive and end just before its cursor: each position once, in order, no gap;
+   - C01_delivered_value_is_log_entry: on the move-out flavour (MPMC, views included) every delivery recorded
+     for position p handed the client exactly the p-th claimed value;
+   - C01_commit_reads_log_entry: on every flavour, a consumer at its committing step whose cursor is its
+     attempt position holds the p-th claimed value (broadcast: the source its clone was made from);
+   - C01_slot_holds_its_position: a slot whose tag is a position holds that position's value unless a writer
+     has overwritten the cell and is about to publish.
+   The last four are over [mreachN]: every execution without the publishing step of known finding F11
+   (see Props/C03.v), with fewer than 2^62 handles ever created and fewer than 2^62 values ever claimed.
+   Not proved: that the clone a broadcast consumer makes stays a clone of that source while the clone runs
+   (pin invariant, C04), and the wrap-around of positions at 2^63. *)
 From Coq Require Import NArith List Bool.
 Require Import MQ.Arith64 MQ.Arith64Facts MQ.Types MQ.State MQ.Model MQ.Exec MQ.Reach MQ.Fields MQ.Ctl MQ.Count
-  MQ.WritersStep MQ.InvWriters MQ.HeadStep MQ.InvHead.
+  MQ.WritersStep MQ.InvWriters MQ.HeadStep MQ.InvHead MQ.RecvDefs MQ.InvReg MQ.WinStep MQ.WinDefs MQ.InvWin MQ.WinRun
+  MQ.SlotDefs MQ.InvSlot MQ.InvDeliv.
 Import ListNotations.
 Open Scope N_scope.
 
@@ -45,3 +58,116 @@ Example C01_witness :
   let s := reach_by c false (Start 0 (CTrySend 5) :: repeat (Step 0) 6 ++ Start 0 (CTrySend 6) :: repeat (Step 0) 6) in
   head (sh s) = 2 /\ g_log (sh s) = [0; 1].
 Proof. vm_compute. split; reflexivity. Qed.
+
+(* ---- deliveries ---- *)
+Theorem C01_stream_delivers_consecutive_positions : forall c fut s,
+  0 < c_n c -> c_n c <= B61 -> mreachN c fut s ->
+  lenN (ags s) < B62 -> lenN (g_log (sh s)) < B62 ->
+  forall sg, let ps := dposs sg (g_deliv (sh s)) in
+    ps = [] \/ (ps = seqN (hd 0 ps) (length ps) /\ gpos (sh s) sg = hd 0 ps + lenN ps).
+Proof.
+  intros c fut s Np Ns R S1 S2 sg.
+  destruct (deliv_mreachN c Np Ns fut s R (conj S1 S2)) as (_ & DS & _). exact (DS sg).
+Qed.
+Check C01_stream_delivers_consecutive_positions : forall c fut s,
+  0 < c_n c -> c_n c <= B61 -> mreachN c fut s ->
+  lenN (ags s) < B62 -> lenN (g_log (sh s)) < B62 ->
+  forall sg, let ps := dposs sg (g_deliv (sh s)) in
+    ps = [] \/ (ps = seqN (hd 0 ps) (length ps) /\ gpos (sh s) sg = hd 0 ps + lenN ps).
+Print Assumptions C01_stream_delivers_consecutive_positions.
+
+Theorem C01_delivered_value_is_log_entry : forall c fut s,
+  0 < c_n c -> c_n c <= B61 -> mreachN c fut s ->
+  lenN (ags s) < B62 -> lenN (g_log (sh s)) < B62 ->
+  forall sid p ser me, In (sid, p, ser, me) (g_deliv (sh s)) ->
+    sid < nsid (sh s) /\ p < head (sh s) /\
+    (is_bcast c = false -> nth_error (g_log (sh s)) (N.to_nat p) = Some ser).
+Proof.
+  intros c fut s Np Ns R S1 S2 sid p ser me IN.
+  destruct (deliv_mreachN c Np Ns fut s R (conj S1 S2)) as (DV & _). exact (DV sid p ser me IN).
+Qed.
+Check C01_delivered_value_is_log_entry : forall c fut s,
+  0 < c_n c -> c_n c <= B61 -> mreachN c fut s ->
+  lenN (ags s) < B62 -> lenN (g_log (sh s)) < B62 ->
+  forall sid p ser me, In (sid, p, ser, me) (g_deliv (sh s)) ->
+    sid < nsid (sh s) /\ p < head (sh s) /\
+    (is_bcast c = false -> nth_error (g_log (sh s)) (N.to_nat p) = Some ser).
+Print Assumptions C01_delivered_value_is_log_entry.
+
+(* [valof]: the register that holds what the consumer read from the cell (move-out: the value itself;
+   broadcast: the source of the clone; view: the viewed value) *)
+Theorem C01_commit_reads_log_entry : forall c fut s a A,
+  0 < c_n c -> c_n c <= B61 -> mreachN c fut s ->
+  lenN (ags s) < B62 -> lenN (g_log (sh s)) < B62 ->
+  get (ags s) a = Some A -> (a_pc A = R12 \/ a_pc A = V4) ->
+  gpos (sh s) (a_sid A) = r_p (a_r A) ->
+  r_p (a_r A) < head (sh s) /\ nth_error (g_log (sh s)) (N.to_nat (r_p (a_r A))) = valof c A.
+Proof.
+  intros c fut s a A Np Ns R S1 S2 EA PC EP.
+  destruct (slot_mreachN c Np Ns fut s R (conj S1 S2)) as (_ & SA & _).
+  destruct (win_mreachN c Np Ns fut s R (conj S1 S2)) as (_ & IA).
+  destruct (SA a A EA) as (_ & _ & _ & FA & _). destruct (IA a A EA) as (_ & _ & (_ & RA) & _).
+  assert (RD : rdphase (a_pc A) = true) by (destruct PC as [-> | ->]; reflexivity).
+  assert (MX : matched (a_pc A) = true) by (destruct PC as [-> | ->]; reflexivity).
+  split; [exact (RA MX)|]. destruct (FA RD) as (_ & FV). exact (FV EP).
+Qed.
+Check C01_commit_reads_log_entry : forall c fut s a A,
+  0 < c_n c -> c_n c <= B61 -> mreachN c fut s ->
+  lenN (ags s) < B62 -> lenN (g_log (sh s)) < B62 ->
+  get (ags s) a = Some A -> (a_pc A = R12 \/ a_pc A = V4) ->
+  gpos (sh s) (a_sid A) = r_p (a_r A) ->
+  r_p (a_r A) < head (sh s) /\ nth_error (g_log (sh s)) (N.to_nat (r_p (a_r A))) = valof c A.
+Print Assumptions C01_commit_reads_log_entry.
+
+Theorem C01_slot_holds_its_position : forall c fut s i,
+  0 < c_n c -> c_n c <= B61 -> mreachN c fut s ->
+  lenN (ags s) < B62 -> lenN (g_log (sh s)) < B62 ->
+  gtag (sh s) i <> INITIAL_QUEUE_FLAG ->
+  (forall a A, get (ags s) a = Some A -> a_pc A = P7 -> sl c (r_h (a_r A)) <> i) ->
+  sl c (gtag (sh s) i) = i /\ gtag (sh s) i < head (sh s) /\
+  nth_error (g_log (sh s)) (N.to_nat (gtag (sh s) i)) = get (cells (sh s)) i /\ get (cells (sh s)) i <> None.
+Proof.
+  intros c fut s i Np Ns R S1 S2 T NOP7.
+  destruct (slot_mreachN c Np Ns fut s R (conj S1 S2)) as (SG & _ & CO & _).
+  destruct (win_mreachN c Np Ns fut s R (conj S1 S2)) as (G & _).
+  split; [exact (sg_own c _ SG i T)|].
+  split; [destruct (w_tag_claimed c _ G i) as [T0 | T0]; [contradiction|exact T0]|].
+  exact (CO i T NOP7).
+Qed.
+Check C01_slot_holds_its_position : forall c fut s i,
+  0 < c_n c -> c_n c <= B61 -> mreachN c fut s ->
+  lenN (ags s) < B62 -> lenN (g_log (sh s)) < B62 ->
+  gtag (sh s) i <> INITIAL_QUEUE_FLAG ->
+  (forall a A, get (ags s) a = Some A -> a_pc A = P7 -> sl c (r_h (a_r A)) <> i) ->
+  sl c (gtag (sh s) i) = i /\ gtag (sh s) i < head (sh s) /\
+  nth_error (g_log (sh s)) (N.to_nat (gtag (sh s) i)) = get (cells (sh s)) i /\ get (cells (sh s)) i <> None.
+Print Assumptions C01_slot_holds_its_position.
+
+(* non-vacuity: a move-out queue with two consumers on one stream, three values, all delivered in order;
+   a broadcast queue with two streams *)
+Example C01_delivery_witness :
+  let c := mk_cfg MPMC 2 WBusy in
+  exists s, mreachN c false s /\ lenN (ags s) < B62 /\ lenN (g_log (sh s)) < B62 /\
+    g_log (sh s) = [0; 1; 2] /\ g_deliv (sh s) = [(0, 0, 0, 1); (0, 1, 1, 2); (0, 2, 2, 2)] /\
+    dposs 0 (g_deliv (sh s)) = [0; 1; 2] /\ gpos (sh s) 0 = 3.
+Proof.
+  cbv zeta.
+  destruct (m_run true (mk_cfg MPMC 2 WBusy) (init false)
+              [MCall 0 (CTrySend 5) 60; MCall 0 (CTrySend 6) 60; MCall 1 (CClone 2) 60; MCall 1 CTryRecv 60;
+               MCall 2 CTryRecv 60; MCall 0 (CTrySend 7) 60; MCall 2 CTryRecv 60]) as [s|] eqn:E; [|vm_compute in E; discriminate E].
+  exists s. split; [eapply m_run_sound; [apply mrn_init|exact E]|].
+  vm_compute in E. injection E as <-. vm_compute. repeat split; intros X; discriminate X.
+Qed.
+
+Example C01_delivery_witness_broadcast :
+  let c := mk_cfg BCast 2 WBusy in
+  exists s, mreachN c false s /\ lenN (ags s) < B62 /\ lenN (g_log (sh s)) < B62 /\
+    dposs 0 (g_deliv (sh s)) = [0; 1] /\ dposs 1 (g_deliv (sh s)) = [0] /\ gpos (sh s) 0 = 2 /\ gpos (sh s) 1 = 1.
+Proof.
+  cbv zeta.
+  destruct (m_run true (mk_cfg BCast 2 WBusy) (init false)
+              [MCall 0 (CTrySend 5) 60; MCall 1 (CAddStream 2) 60; MCall 0 (CTrySend 6) 60; MCall 1 CTryRecv 60;
+               MCall 2 CTryRecv 60; MCall 1 CTryRecv 60]) as [s|] eqn:E; [|vm_compute in E; discriminate E].
+  exists s. split; [eapply m_run_sound; [apply mrn_init|exact E]|].
+  vm_compute in E. injection E as <-. vm_compute. repeat split; intros X; discriminate X.
+Qed.
